@@ -136,7 +136,9 @@ pub fn run(args: &Args) {
     for i in 0..nq {
         let f = fee_triple(&mut rng, true);
         let kinds = [i % 2 == 1, i % 4 >= 2];
-        let mut w = match deploy_pair(kinds, [6, 6], pool_fee(f.0, f.1, f.2), PairType::ConstantProduct) { Ok(w) => w, Err(_) => continue };
+        // the pair's asset_decimals must not matter to a constant-product pool ("all decimal settings", beyond 18 included)
+        let decs = *rng.pick(&[[6u8, 6u8], [6, 18], [18, 6], [24, 6], [6, 20], [0, 30]]);
+        let mut w = match deploy_pair(kinds, decs, pool_fee(f.0, f.1, f.2), PairType::ConstantProduct) { Ok(w) => w, Err(_) => continue };
         let cap = if kinds[0] || kinds[1] { 120 } else { 124 };
         let (d0, d1) = if i == 0 { (4_000_000_000_000_000_000u128, 3u128 + 1_000_000_000) } else { (magnitude(&mut rng, cap).max(2000), magnitude(&mut rng, cap).max(2000)) };
         if w.provide("alice", d0, d1, None, None).is_err() { out.count("sim:provide_rejected"); continue; }
